@@ -130,7 +130,7 @@ def make_cases(seed, tier):
 
 # alg-yescrypt-opt.c has three bodies selected by the compiler's target: SSE2 (every default x86-64 build),
 # AVX (distributions building for x86-64-v3) and the portable C one (every other architecture)
-ISA = {"avx2": "-mavx2", "portable": "-mno-sse2 -mno-sse"}
+ISA = {"avx2": "-mavx2", "portable": "-mno-sse2 -mno-sse", "ndebug": "-DNDEBUG (whole library)"}
 ISA_EXE = {}
 
 
@@ -141,8 +141,14 @@ def isa_workers():
     return out
 
 
+NDEBUG_EXE = []
+
+
 def build_isa(tree):
+    NDEBUG_EXE.append(tree.program("ndebug", "vw.c"))
     for k, fl in ISA.items():
+        if k == "ndebug":
+            continue
         o = tree.variant_object("opt", "alg-yescrypt-opt.c", "isa-" + k, None, fl)
         ISA_EXE[k] = tree.program("opt", "vw.c", name="vw-opt-" + k, replace={"alg-yescrypt-opt.o": o})
 
@@ -163,6 +169,10 @@ def do_chunk(chunk):
     # the other instruction-set bodies of the yescrypt core
     fam = [i for i, c in enumerate(chunk) if c[0] in ("yescrypt", "gost_yescrypt", "scrypt")]
     isa_rows = {}
+    if NDEBUG_EXE:
+        # every method on the -DNDEBUG build
+        rr = rt.run_resilient(pool.worker(NDEBUG_EXE[0]), setup, lines, timeout=300)
+        isa_rows["ndebug"] = dict(enumerate(rr))
     if fam and ISA_EXE:
         for k, w in isa_workers().items():
             rr = rt.run_resilient(w, setup, [lines[i] for i in fam], timeout=300)
